@@ -20,6 +20,7 @@ import (
 type Step struct {
 	T    string `json:"t"`             // "key" | "abs" | "rep" (key repeat noise) | "midi" (MIDI-in message)
 	Sub  string `json:"sub,omitempty"` // sub-handler name (Handler.Name)
+	Node int    `json:"node,omitempty"` // 1: the second event node of the device that carries the same sub-handler name
 	Code uint16 `json:"code"`
 	Val  int32  `json:"val"`
 	Midi []byte `json:"midi,omitempty"`
@@ -28,6 +29,9 @@ type Step struct {
 func (s Step) String() string {
 	switch s.T {
 	case "key":
+		if s.Node != 0 {
+			return fmt.Sprintf("key %s(node %d)/%d=%d", s.Sub, s.Node, s.Code, s.Val)
+		}
 		return fmt.Sprintf("key %s/%d=%d", s.Sub, s.Code, s.Val)
 	case "abs":
 		return fmt.Sprintf("abs %s/%d=%d", s.Sub, s.Code, s.Val)
@@ -129,7 +133,43 @@ func makeInputDevice(d *Desc, name string) input.Device {
 			infos[c] = ai
 		}
 	}
+	// second event nodes that carry the name of an existing sub-handler (two pads of one model behind one Bluetooth
+	// adapter, a twin joystick adapter): same name, same configuration, own event node
+	for i, s := range d.TwinNodes {
+		di := setEventName(fmt.Sprintf("event%d", 40+i), input.DeviceInfo{Name: strings.TrimSpace(name + " " + s)})
+		dev.Handlers = append(dev.Handlers, input.Handler{Name: s, DeviceInfo: di})
+		dev.AbsInfos[di.Event()] = axisInfosOf(d, s)
+	}
 	return dev
+}
+
+// SK is the key under which the harness files what belongs to the event node a step comes from: the sub-handler name, and
+// for the second node with that name a marker (the configuration cannot tell the two apart, the hardware keys are distinct).
+func (s Step) SK() string {
+	if s.Node == 0 {
+		return s.Sub
+	}
+	return s.Sub + "\x00node1"
+}
+
+func subOfSK(sk string) string {
+	if i := strings.IndexByte(sk, 0); i >= 0 {
+		return sk[:i]
+	}
+	return sk
+}
+
+func handlerForNode(dev *input.Device, sub string, node int) input.Handler {
+	seen := 0
+	for _, h := range dev.Handlers {
+		if h.Name == sub {
+			if seen == node {
+				return h
+			}
+			seen++
+		}
+	}
+	return handlerFor(dev, sub)
 }
 
 func handlerFor(dev *input.Device, sub string) input.Handler {
@@ -152,7 +192,7 @@ func toInputEvent(dev *input.Device, s Step) *input.InputEvent {
 	case "abs":
 		ev.Type = evdev.EV_ABS
 	}
-	return &input.InputEvent{Source: handlerFor(dev, s.Sub), Event: ev}
+	return &input.InputEvent{Source: handlerForNode(dev, s.Sub, s.Node), Event: ev}
 }
 
 func drain(ch chan midi.Event) [][]byte {
